@@ -197,6 +197,8 @@ func main() {
 		fmt.Printf("  (\"%s\", [%s])%s\n", k, strings.Join(parts, "; "), sep)
 	}
 	fmt.Println("].")
+	fmt.Println("(* util.MessageStream.parse hands the buffer back (Reset, send on pool.Empty) only after the parser returned *)")
+	fmt.Printf("Definition recycle_after_parse : bool := %v.\n", recycleAfterParse(root, fset))
 	fmt.Println("(* decoder sites reachable from Parse that keep a view of the input buffer instead of a copy *)")
 	fmt.Println("Definition view_sites : list string := [")
 	for i, v := range views {
@@ -371,6 +373,9 @@ func retentionSites(root string, fset *token.FileSet) []string {
 			case *ast.UnaryExpr:
 				return view(x.X)
 			case *ast.CallExpr: // conversions such as net.IP(data[a:b]) and Buffer constructors keep the view
+				if id, ok := x.Fun.(*ast.Ident); ok && id.Name == "append" && len(x.Args) > 0 && view(x.Args[0]) {
+					return true // appending onto a sub-slice of the input writes into (and keeps) the input's array
+				}
 				if len(x.Args) == 1 && view(x.Args[0]) {
 					name := ""
 					switch f := x.Fun.(type) {
@@ -380,7 +385,7 @@ func retentionSites(root string, fset *token.FileSet) []string {
 						name = f.Sel.Name
 					}
 					switch name {
-					case "NewBuffer", "IP", "HardwareAddr":
+					case "NewBuffer", "NewReader", "IP", "HardwareAddr":
 						return true
 					}
 				}
@@ -541,4 +546,60 @@ func min(a, b int) int {
 		return a
 	}
 	return b
+}
+
+// recycleAfterParse: in (*MessageStream).parse every b.Reset() and every send on pool.Empty
+// comes after the call of the parser, and the parser is given the buffer's bytes directly.
+func recycleAfterParse(root string, fset *token.FileSet) bool {
+	src, err := os.ReadFile(filepath.Join(root, "util", "stream.go"))
+	if err != nil {
+		return false
+	}
+	af, err := parser.ParseFile(fset, filepath.Join(root, "util", "stream.go"), src, 0)
+	if err != nil {
+		return false
+	}
+	ok := false
+	for _, d := range af.Decls {
+		fd, isf := d.(*ast.FuncDecl)
+		if !isf || fd.Name.Name != "parse" || fd.Recv == nil || fd.Body == nil {
+			continue
+		}
+		var parsePos []token.Pos
+		var recycle []token.Pos
+		aliased := false
+		ast.Inspect(fd.Body, func(n ast.Node) bool {
+			switch x := n.(type) {
+			case *ast.CallExpr:
+				if se, isSel := x.Fun.(*ast.SelectorExpr); isSel {
+					switch se.Sel.Name {
+					case "Parse":
+						parsePos = append(parsePos, x.End())
+						// the argument must be b.Bytes() itself, not a saved slice
+						if len(x.Args) != 1 {
+							aliased = true
+						} else if c, isCall := x.Args[0].(*ast.CallExpr); !isCall {
+							aliased = true
+						} else if s2, is2 := c.Fun.(*ast.SelectorExpr); !is2 || s2.Sel.Name != "Bytes" {
+							aliased = true
+						}
+					case "Reset", "Truncate":
+						recycle = append(recycle, x.Pos())
+					}
+				}
+			case *ast.SendStmt:
+				if se, isSel := x.Chan.(*ast.SelectorExpr); isSel && se.Sel.Name == "Empty" {
+					recycle = append(recycle, x.Pos())
+				}
+			}
+			return true
+		})
+		ok = len(parsePos) == 1 && len(recycle) >= 1 && !aliased
+		for _, r := range recycle {
+			if r < parsePos[0] {
+				ok = false
+			}
+		}
+	}
+	return ok
 }
